@@ -27,6 +27,7 @@ import (
 	"github.com/cloudwego/eino/components/model"
 	"github.com/cloudwego/eino/components/prompt"
 	"github.com/cloudwego/eino/components/retriever"
+	"github.com/cloudwego/eino/internal/verifhook"
 	"github.com/cloudwego/eino/schema"
 )
 
@@ -423,7 +424,11 @@ func (wf *Workflow[I, O]) compile(ctx context.Context, options *graphCompileOpti
 		_ = wf.g.addBranch(wb.fromNodeKey, wb.GraphBranch, true)
 	}
 
+	nkeys, ni := verifhook.SortedKeys(wf.workflowNodes), 0
 	for _, n := range wf.workflowNodes {
+		if verifhook.On { // simulator: deterministic (sorted) construction order
+			n, ni = wf.workflowNodes[nkeys[ni]], ni+1
+		}
 		for _, addInput := range n.addInputs {
 			if err := addInput(); err != nil {
 				return nil, err
@@ -432,7 +437,11 @@ func (wf *Workflow[I, O]) compile(ctx context.Context, options *graphCompileOpti
 		n.addInputs = nil
 	}
 
+	ni = 0
 	for _, n := range wf.workflowNodes {
+		if verifhook.On {
+			n, ni = wf.workflowNodes[nkeys[ni]], ni+1
+		}
 		if len(n.staticValues) > 0 {
 			value := make(map[string]any, len(n.staticValues))
 			var paths []FieldPath
